@@ -18,7 +18,7 @@ MANIFEST = {
     'technique': 'runtime post-condition monitors + differential oracle between capped/uncapped runs and stage-wise re-extraction on the real functions',
 }
 BUDGET_S = {'quick': 75, 'thorough': 480}
-NCASES = {'quick': 640, 'thorough': 8000}
+NCASES = {'quick': 480, 'thorough': 8000}
 RULE = ('seeded random signals (noise, walks, tones+trend, AM/FM, integer-valued) of 60..400 samples x variant x option '
         'set x caps 1..K+2; non-trivial = the uncapped/base run returned >= 2 components; distinct by sha1 of (signal, '
         'variant, options)')
@@ -225,6 +225,9 @@ def gen_case(rng, variant):
     io, eo, xo = opts(rng, light)
     if eo['interp_method'] != 'splrep':
         x = x[:150]
+    if rng.random() < .3:
+        # amplitudes across the range the design commits to (1e-6 .. 1e6): results must stay finite
+        x = x * float(gens.pick(rng, [1e-6, 1e-3, 1e3, 1e6]))
     c = {'kind': variant, 'family': kind, 'x': x, 'imf_opts': io, 'envelope_opts': eo, 'extrema_opts': xo,
          'cap_sample': rng.integers(4, 40, 3)}
     if variant == 'mask':
